@@ -258,6 +258,34 @@ var scenarios = []scenario{
 		x.do(rIO("WRITE", a.Fh, "reg", u2.T, u2.Q, false))
 		x.do(rSid("CLOSE", a.Fh, u2.T, u2.Q, 6))
 	}},
+	{"downgrade-while-locked-then-upgrade", func(x *sc) {
+		c := x.client(1, 1)
+		a := x.openc(c, "o1", 1, "a", 3)
+		l := x.do(rLockNew(a.Fh, a.T, a.Q, 3, c, "l1", 1, "W", 0, 2)) // clones R and W
+		d := x.do(rDowngrade(a.Fh, a.T, a.Q, 4, 1))                   // the lock-owner file alone keeps W
+		u, _ := x.e.do(rOpen(c, "o1", 5, "a", 2, "NOCREATE"))         // upgrade: the new W open is redundant
+		x.do(rIO("WRITE", a.Fh, "reg", u.T, u.Q, false))
+		x.do(rIO("WRITE", a.Fh, "reg", l.T, l.Q, false))
+		d2 := x.do(rDowngrade(a.Fh, u.T, u.Q, 6, 2)) // now to W only: lock-owner keeps R
+		u2, _ := x.e.do(rOpenPrev(c, "o1", 7, a.Fh, 1))
+		x.do(rSid("CLOSE", a.Fh, u2.T, u2.Q, 8))
+		_, _ = d, d2
+	}},
+	{"downgrade-during-write-then-upgrade", func(x *sc) {
+		c := x.client(1, 1)
+		a := x.openc(c, "o1", 1, "a", 3)
+		_, id := x.e.do(rIO("WRITE", a.Fh, "reg", a.T, a.Q, true)) // in-flight WRITE clones W
+		d := x.do(rDowngrade(a.Fh, a.T, a.Q, 3, 1))                // the WRITE alone keeps W
+		u, _ := x.e.do(rOpen(c, "o1", 4, "a", 3, "NOCREATE"))      // upgrade while the WRITE is inside
+		x.e.finish(id)
+		x.do(rIO("WRITE", a.Fh, "reg", u.T, u.Q, false))
+		_, id2 := x.e.do(rIO("READ", a.Fh, "reg", u.T, u.Q, true)) // in-flight READ clones R
+		d2 := x.do(rDowngrade(a.Fh, u.T, u.Q, 5, 2))
+		u2, _ := x.e.do(rOpenPrev(c, "o1", 6, a.Fh, 1))
+		x.do(rSid("CLOSE", a.Fh, u2.T, u2.Q, 7))
+		x.e.finish(id2)
+		_, _ = d, d2
+	}},
 	{"upgrade-overlap", func(x *sc) {
 		c := x.client(1, 1)
 		a := x.openc(c, "o1", 1, "a", 1)
